@@ -74,7 +74,17 @@ func unpauseAllActions(w *world.World, ctx sdk.Context, model *kit.State) (sdk.C
 }
 
 func runC09(w *world.World, c caseHistory, rec *kit.Recorder) error {
+	return runC09On(w, nil, c, rec)
+}
+
+// runC09On runs the C09 oracle on the application's own stack (l == nil) or on the LAB stack,
+// where a second, denomination-changing action controller is registered under ACTION_SWAP.
+func runC09On(w *world.World, l *world.Lab, c caseHistory, rec *kit.Recorder) error {
 	m := kit.NewMachine(w)
+	stack := w.Stack
+	if l != nil {
+		m.Stack, stack = l.Stack, l.Stack
+	}
 	for i, s := range c.History {
 		at := fmt.Sprintf("step %d (%s)", i, kit.JSON(s))
 		switch {
@@ -105,16 +115,33 @@ func runC09(w *world.World, c caseHistory, rec *kit.Recorder) error {
 			if err != nil {
 				return fmt.Errorf("%s: %w", at, err)
 			}
-			p, err := kit.BuildPacket(w.Cdc, t, true)
+			p, err := kit.BuildPacket(w.Cdc, t, false)
 			if err != nil {
 				return fmt.Errorf("harness: %w", err)
 			}
+			if l != nil {
+				l.Begin()
+			}
 			beforeClean := w.Ledger(clean)
-			outClean := world.Recv(clean, w.Stack, p)
+			outClean := world.Recv(clean, stack, p)
 			deltaClean := world.Diff(beforeClean, w.Ledger(clean))
+			var session *world.Session
+			if l != nil {
+				session = l.Begin()
+			}
 			o := m.Do(s)
 			if o.Out.Panicked() || outClean.Panicked() {
 				return fmt.Errorf("%s: panic: %v %v", at, o.Out.Panic, outClean.Panic)
+			}
+			if session != nil && containsPaused {
+				// no part of a paused action takes effect: neither a fee send nor a swap call
+				for _, cl := range session.Calls {
+					if cl.Site == "fee-send" || cl.Site == "swap" {
+						if (cl.Site == "fee-send" && m.Model.PausedActions[kit.ActFee]) || (cl.Site == "swap" && m.Model.PausedActions[kit.ActSwap]) {
+							return fmt.Errorf("%s: action call %s was executed although the action is paused (calls %v)", at, cl.Site, session.Sites())
+						}
+					}
+				}
 			}
 			anyPause := len(m.Model.PausedActions) > 0
 			if anyPause {
@@ -175,6 +202,29 @@ func TestC09History(t *testing.T) {
 	rec.Require("enforcement", "payload contains a paused action", 20)
 	rec.Require("enforcement", "payload without a paused action while one is paused", 20)
 	rec.Require("probe", "valid probe succeeds with all action pauses removed", 50)
+}
+
+// TestC09Lab repeats the check in the LAB world, where ACTION_SWAP has a controller too: pausing
+// one action must not affect payloads that contain only the other.
+func TestC09Lab(t *testing.T) {
+	l := lab(t)
+	w := l.W
+	rec := kit.NewRecorder(t, "C09")
+	opt := kit.HistOpt{
+		MinSteps: 2, MaxSteps: maxSteps(),
+		PacketW: 55, AdminW: 45, EnvW: 0,
+		Packet: func(rt *rapid.T) kit.Transfer { return genC06(rt, l).Transfer },
+		Admin:  kit.AdminOpt{Kinds: []string{"pause_action", "unpause_action"}, ForeignSignerPct: 5, InvalidPct: 8},
+	}
+	rapid.Check(t, func(rt *rapid.T) {
+		c := caseHistory{History: kit.GenHistory(rt, opt)}
+		rec.Eval()
+		if err := runC09On(w, l, c, rec); err != nil {
+			rec.Fail(rt, c, "%v", err)
+		}
+	})
+	rec.Require("enforcement", "payload contains a paused action", 20)
+	rec.Require("enforcement", "payload without a paused action while one is paused", 20)
 }
 
 // ---------------------------------------------------------------------------------------------
@@ -318,6 +368,18 @@ func init() {
 			return fmt.Errorf("harness: %w", err)
 		}
 		return runC09(prodW, c, nil)
+	})
+	kit.RegisterReplay("TestC09Lab", func(raw json.RawMessage) error {
+		c, err := decode[caseHistory](raw)
+		if err != nil {
+			return fmt.Errorf("harness: %w", err)
+		}
+		if labW == nil {
+			if labW, labErr = world.NewLab(prodW); labErr != nil {
+				return fmt.Errorf("harness: %w", labErr)
+			}
+		}
+		return runC09On(prodW, labW, c, nil)
 	})
 	kit.RegisterReplay("TestC18History", func(raw json.RawMessage) error {
 		c, err := decode[caseC18](raw)
